@@ -145,6 +145,12 @@ MissViaTable(f, p) ==
                  [buf |-> s, total |-> FrameLen[f], dataLen |-> Lesser(FrameLen[f], missLen), inport |-> p,
                   reason |-> "miss", emitted |-> out2])
 
+\* FEATURES_REQUEST at any time: the advertised buffer count is the size of the pool, however many packets it
+\* holds just now ("the number of stored packets never exceeds the advertised buffer count")
+Features ==
+  /\ UNCHANGED <<pool, missLen>>
+  /\ Log("Features", [x |-> 0], [nbuf |-> N])
+
 SetConfig(ml) ==
   /\ missLen' = ml /\ UNCHANGED pool
   /\ Log("SetConfig", [missLen |-> ml], [x |-> 0])
@@ -219,6 +225,7 @@ Next1 == \/ \E f \in Frames, p \in Ports : Miss(f, p)
          \/ \E f \in Frames, p \in Ports, a \in Acts : PacketOutData(f, p, a)
          \/ \E f \in Frames, p \in Ports : MissViaTable(f, p)
          \/ \E ml \in MissLens : SetConfig(ml)
+         \/ Features
 Next == Next1 \/ NextL
 
 Spec == Init /\ [][Next]_vars
